@@ -513,10 +513,11 @@ func programLine(l []byte, bh *Header) error {
 }
 
 func commentLine(l []byte, bh *Header) error {
-	fields := bytes.Split(l, []byte{'\t'})
-	if len(fields) < 2 {
+	// A comment is the rest of the line; it may contain tabs.
+	i := bytes.IndexByte(l, '\t')
+	if i < 0 {
 		return errBadHeader
 	}
-	bh.Comments = append(bh.Comments, string(fields[1]))
+	bh.Comments = append(bh.Comments, string(l[i+1:]))
 	return nil
 }
